@@ -56,8 +56,10 @@ GROUP_DOC = {1: "xbitset_iterator over xdynamic_bitset<uint8_t> (+ std::reverse_
 # largest container size per size class: chosen so that block boundaries of the bit storages are crossed
 NMAX = {
     "quick": {"plain": 8, "u8": 18, "u16": 18, "u32": 12, "u64": 12},
-    "thorough": {"plain": 64, "u8": 96, "u16": 96, "u32": 132, "u64": 200},
+    "thorough": {"plain": 64, "u8": 96, "u16": 96, "u32": 132, "u64": 136},
 }
+# the additional builds of the thorough tier (other language levels, second compiler) re-execute the same law instances up to these sizes
+NMAX_SECONDARY = {"plain": 24, "u8": 40, "u16": 40, "u32": 70, "u64": 70}
 
 
 def configs(tier):
@@ -122,54 +124,83 @@ def merge(ctx, sub, primary):
         ctx.cap(c)
 
 
+def shards(N):
+    """cut the sizes 0..N into contiguous ranges of roughly equal cost (a size n costs about (n+1)^4)"""
+    k = 1 if N <= 48 else (2 if N <= 100 else 4)
+    total = sum((n + 1) ** 4 for n in range(N + 1))
+    out, lo, acc = [], 0, 0
+    for n in range(N + 1):
+        acc += (n + 1) ** 4
+        if acc * k >= total * (len(out) + 1) and len(out) < k - 1:
+            out.append((lo, n))
+            lo = n + 1
+    if lo <= N:
+        out.append((lo, N))
+    return out
+
+
 def run_config(ctx, std, cxx, primary):
     label = "%s -std=%s" % (cxx, std)
-    nmax = NMAX[ctx.tier]
+    nmax = NMAX[ctx.tier] if primary else NMAX_SECONDARY
 
+    # phase 1: build every group (in parallel) and probe its capabilities against the manifest
     def group_job(group):
         def f():
             if ctx.time_left() < 90:
-                return [("skipped", group, None)]
+                return None
             binary = build(group, std, cxx)
             probe(ctx, binary, group, label)
-            kinds = sorted(k for k, v in MANIFEST.items() if v[0] == group)
-
-            def kind_job(kind):
-                def g():
-                    left = ctx.time_left()
-                    if left < 40:
-                        return ("skipped", kind, None)
-                    sub = vlib.Ctx(ctx.pid, ctx.tier, LEVEL, ctx.seed)
-                    sub.run_harness(binary, ["--kind", kind, "--nmin", "0", "--nmax", str(nmax[MANIFEST[kind][4]]),
-                                             "--deadline", str(int(max(10, left - 30)))],
-                                    tag=tag_of(group, std, cxx), timeout=max(60, left + 60))
-                    return ("ok", kind, sub)
-                return g
-            return vlib.parallel([kind_job(k) for k in kinds], workers=4)
+            return binary
         return f
 
-    res = vlib.parallel([group_job(g) for g in GROUPS], workers=len(GROUPS))
+    binaries = dict(zip(GROUPS, vlib.parallel([group_job(g) for g in GROUPS], workers=len(GROUPS))))
+    skipped = ["group %d" % g for g in GROUPS if binaries[g] is None]
+
+    # phase 2: one harness process per (kind, size range), most expensive first
+    def kind_job(kind, lo, hi):
+        def g():
+            left = ctx.time_left()
+            if left < 40:
+                return ("skipped", kind, lo, hi, None)
+            group = MANIFEST[kind][0]
+            sub = vlib.Ctx(ctx.pid, ctx.tier, LEVEL, ctx.seed)
+            sub.run_harness(binaries[group], ["--kind", kind, "--nmin", str(lo), "--nmax", str(hi), "--deadline", str(int(max(10, left - 30)))],
+                            tag=tag_of(group, std, cxx), timeout=max(60, left + 60))
+            return ("ok", kind, lo, hi, sub)
+        return g
+
+    plan = []
+    for kind, v in sorted(MANIFEST.items()):
+        if binaries[v[0]] is None:
+            continue
+        for (lo, hi) in shards(nmax[v[4]]):
+            plan.append((-(hi + 1) ** 5 + lo ** 5, kind, lo, hi))
+    plan.sort()
+    res = vlib.parallel([kind_job(k, lo, hi) for (_, k, lo, hi) in plan], workers=vlib.NCPU)
+
     n_eval = 0
-    skipped = []
-    for lst in res:
-        for (st, what, sub) in lst:
-            if st == "skipped":
-                skipped.append(str(what))
-                continue
-            merge(ctx, sub, primary)
-            n_eval += sub.stats.get("evaluations", 0)
-            if primary:
-                ctx.note("kind %s: sizes 0..%d, %d law instances, %d non-trivial" % (
-                    what, sub.maxes.get("max_n", -1), sub.stats.get("evaluations", 0), sub.stats.get("distinct_nontrivial", 0)))
+    per_kind = {}
+    for (st, kind, lo, hi, sub) in res:
+        if st == "skipped":
+            skipped.append("%s sizes %d..%d" % (kind, lo, hi))
+            continue
+        merge(ctx, sub, primary)
+        n_eval += sub.stats.get("evaluations", 0)
+        pk = per_kind.setdefault(kind, [0, 0, 0])
+        pk[0] = max(pk[0], sub.maxes.get("max_n", -1))
+        pk[1] += sub.stats.get("evaluations", 0)
+        pk[2] += sub.stats.get("distinct_nontrivial", 0)
     if primary:
+        for kind, pk in sorted(per_kind.items()):
+            ctx.note("kind %s: sizes 0..%d, %d law instances, %d non-trivial" % (kind, pk[0], pk[1], pk[2]))
         # Ctx keeps 12 samples: spread them over the kinds instead of taking the first twelve
-        every = [s for lst in res for (st, _, sub) in lst if st == "ok" for s in sub.samples]
+        every = sorted(s for (st, _, _, _, sub) in res if st == "ok" for s in sub.samples)
         step = max(1, len(every) // 12)
         for s in every[::step]:
             ctx.sample(s)
     if skipped:
-        ctx.cap("deadline: build '%s' did not run groups/kinds %s" % (label, ", ".join(skipped)))
-    ctx.note("build %s: %d law instances" % (label, n_eval))
+        ctx.cap("deadline: build '%s' did not run %s" % (label, ", ".join(skipped)))
+    ctx.note("build %s: %d law instances (sizes: %s)" % (label, n_eval, ", ".join("%s 0..%d" % kv for kv in sorted(nmax.items()))))
 
 
 def run(ctx):
@@ -194,6 +225,10 @@ def run(ctx):
         "under index-bit patterns written directly into the block storage. evaluations = law instances executed over all builds; distinct_nontrivial = distinct "
         "law instances of the primary build with n > 0 that are not the reflexive (a == b) or zero-offset (d == 0) instance, counted while enumerating"
         % (len(MANIFEST), nm["plain"], nm["u8"], nm["u32"], nm["u64"]))
+    if len(configs(ctx.tier)) > 1:
+        ctx.rule += ("; additional builds (%s) re-execute the same instances up to N = %d / %d / %d / %d" % (
+            ", ".join("%s -std=%s" % (c, s) for (s, c, p) in configs(ctx.tier) if not p),
+            NMAX_SECONDARY["plain"], NMAX_SECONDARY["u8"], NMAX_SECONDARY["u32"], NMAX_SECONDARY["u64"]))
     ctx.assumptions += [
         "reference semantics = index arithmetic on the underlying std::vector / std::map / block storage; std:: iterators, std::next and std::reverse_iterator are trusted",
         "bounded: container sizes up to the stated N per kind; element types int / double / bool; map<int,double>; steps 1..4 and 7; larger sizes, other element types, "
